@@ -1,0 +1,11 @@
+//go:build verif
+
+package restclient
+
+// Exported wrappers of unexported helpers, for the verification probe only.
+
+func VerifParsePath(doc string) (string, string, []string, bool) { return parsePath(doc) }
+func VerifParseKV(s string) map[string]string                    { return parseKV(s) }
+func VerifParseAlias(doc string) map[string]string               { return parseAlias(doc) }
+func VerifParseHeaders(doc string) map[string]string             { return parseHeaders(doc) }
+func VerifParseFieldAlias(tag string) string                     { return parseFieldAlias(tag) }
